@@ -266,7 +266,7 @@ func (c *Ctx) paramGroupIsStepWG(fn *ssa.Function, name string) (bool, string) {
 				continue
 			}
 			a := args[ai]
-			if f := loadedField(a); f != nil && f.Name() == "wg" {
+			if f := loadedField(a); f != nil && fieldName(f) == "wg" {
 				srcs = append(srcs, "&"+lockOwnerOfField(f)+".wg")
 				continue
 			}
@@ -359,7 +359,7 @@ func c05R4(c *Ctx) {
 			if _, isCall := in.(*ssa.Call); !isCall {
 				return false
 			}
-			if f := loadedField(cc.Value); f != nil && f.Name() == "cancel" {
+			if f := loadedField(cc.Value); f != nil && fieldName(f) == "cancel" {
 				return true
 			}
 			for _, callee := range g.Callees(in) {
@@ -408,7 +408,7 @@ func (c *Ctx) alwaysCancels(fn *ssa.Function, depth int) bool {
 		if _, isCall := in.(*ssa.Call); !isCall {
 			return false
 		}
-		if f := loadedField(cc.Value); f != nil && f.Name() == "cancel" {
+		if f := loadedField(cc.Value); f != nil && fieldName(f) == "cancel" {
 			return true
 		}
 		for _, callee := range g.Callees(in) {
@@ -503,7 +503,7 @@ func c05R6(c *Ctx) {
 									}
 								})
 							}
-							if released == "" && fv.Name() == "cancel" && structOf(fa.X.Type()) != nil {
+							if released == "" && fieldName(fv) == "cancel" && structOf(fa.X.Type()) != nil {
 								// loopState.cancel: the same function defers the cancel as well
 							}
 						}
@@ -572,7 +572,7 @@ func c05R7(c *Ctx) {
 			n++
 			key := fmt.Sprintf("%s@%s", cc.Method.Name(), c.fnName(fn))
 			f := loadedField(cc.Args[0])
-			c.verdict(f != nil && f.Name() == "ctx", rule, key, c.instrPos(r.I), "first argument is the step's ctx field", "the call is made with "+valueOrigin(cc.Args[0])+" instead of the step's context: closing the step does not reach it, it keeps running after the run returned")
+			c.verdict(f != nil && fieldName(f) == "ctx", rule, key, c.instrPos(r.I), "first argument is the step's ctx field", "the call is made with "+valueOrigin(cc.Args[0])+" instead of the step's context: closing the step does not reach it, it keeps running after the run returned")
 		})
 	}
 	c.minCount(rule, "sub-run / deploy calls", n, 2)
